@@ -69,8 +69,13 @@ class Partition:
 
     def heal(self) -> None:
         """Remove only this partition's pairs, leaving others intact."""
-        self._network._partitioned_pairs -= self.pairs
-        self._network._directed_partitions -= self.directed_pairs
+        # A pair that another still-active partition also blocks stays blocked.
+        others = [p for p in self._network._active_partitions if p is not self]
+        self._network._active_partitions[:] = others
+        kept_pairs = frozenset().union(*(p.pairs for p in others))
+        kept_directed = frozenset().union(*(p.directed_pairs for p in others))
+        self._network._partitioned_pairs -= self.pairs - kept_pairs
+        self._network._directed_partitions -= self.directed_pairs - kept_directed
         logger.info(
             "[%s] Selective partition healed: %d bidirectional + %d directed pairs",
             self._network.name,
@@ -106,6 +111,11 @@ class Network(Entity):
 
     # Directed partition state: set of (source, dest) tuples (asymmetric)
     _directed_partitions: set[tuple[str, str]] = field(default_factory=set, init=False)
+
+    # Handles of the partitions that have been created and not yet healed
+    _active_partitions: list[Partition] = field(
+        default_factory=list, init=False, repr=False, compare=False
+    )
 
     # Track all known entities for partition validation
     _known_entities: dict[str, Entity] = field(default_factory=dict, init=False)
@@ -242,11 +252,13 @@ class Network(Entity):
                 [e.name for e in group_b],
             )
 
-        return Partition(
+        handle = Partition(
             pairs=frozenset(bidirectional_pairs),
             directed_pairs=frozenset(directed_pairs),
             _network=self,
         )
+        self._active_partitions.append(handle)
+        return handle
 
     def heal_partition(self) -> None:
         """Remove all network partitions, restoring full connectivity."""
@@ -254,6 +266,7 @@ class Network(Entity):
         num_directed = len(self._directed_partitions)
         self._partitioned_pairs.clear()
         self._directed_partitions.clear()
+        self._active_partitions.clear()
         logger.info(
             "[%s] All partitions healed: %d bidirectional + %d directed pairs restored",
             self.name,
